@@ -31,6 +31,7 @@ CONSTANTS
                \* "history": every history of up to MaxCalls select()/parse() calls on ONE exporter object
                \* "chain"  : every sequence of MaxChain exports of ONE parsed environment through (different) back-ends
   Shapes,      \* set of shapes (sequences of extents) explored in family "types"
+  ModShapes,   \* shapes on which the way the value was given (defined once / modified later / declared then assigned) is varied
   SecShapes,   \* shapes on which the secondary attributes (path, keyword form, unit, tags, constant) are varied
   ArrStarts,   \* start positions of the value pattern used for arrays (scalars use every position)
   Steps,       \* strides of the value pattern used for arrays (0 = all elements equal)
@@ -191,13 +192,22 @@ IsIdentifier(rel, be, rename) == (be \in Renamers) => (rename \/ Len(rel) = 1)
 
 Param(path, tv, form, shape, elems, unit, tags, const) ==
   [path |-> path, ty |-> tv.ty, width |-> tv.width, uns |-> tv.uns, kw |-> Keyword(tv, form),
-   shape |-> shape, elems |-> elems, unit |-> unit, tags |-> tags, const |-> const]
+   shape |-> shape, elems |-> elems, unit |-> unit, tags |-> tags, const |-> const,
+   def |-> "once", init |-> <<>>]
+
+\* How the DIP text gives the node its value.  The environment - and therefore every export - knows only the node's
+\* declared type and its FINAL value:
+\*   "once"      name type = value
+\*   "modified"  name type = init   ...   name = value      (init: other elements of the same type)
+\*   "declared"  name type          ...   name = value
+GivenAs(p, mode, init) == [p EXCEPT !.def = mode, !.init = init]
+Once(p) == GivenAs(p, "once", <<>>)
 
 TvOf(p) == TV(p.ty, p.width, p.uns)
 
 \* family "types": one parameter; the secondary attributes (path, unit, keyword form, tags, constant)
 \* vary only on the first value pattern
-TypeParamOK(tv, shape, start, step, path, form, unit, tags, const) ==
+TypeParamOK(tv, shape, start, step, path, form, unit, tags, const, mode) ==
   /\ start <= Len(FitSeq(tv))
   /\ (Rank(shape) = 0) => step = 1
   /\ (Rank(shape) > 0) => start \in ArrStarts /\ step \in Steps
@@ -208,6 +218,7 @@ TypeParamOK(tv, shape, start, step, path, form, unit, tags, const) ==
                  + (IF unit # "" THEN 1 ELSE 0) + (IF tags # {} THEN 1 ELSE 0) IN
      /\ nsec <= 1                                   \* one secondary attribute at a time
      /\ nsec = 1 => (start = 1 /\ step = 1 /\ shape \in SecShapes)
+     /\ mode # "once" => (nsec = 0 /\ shape \in ModShapes)      \* a constant node cannot be modified
 
 \* family "select": a fixed pool of harmless parameters with different paths and tags
 SelPool == <<
@@ -216,7 +227,7 @@ SelPool == <<
   Param(<<"grp", "c">>,        TV("float", 64, FALSE), "short", <<>>,  <<6>>,    "cm", {"t1", "t2"}, TRUE),
   Param(<<"grp", "sub", "d">>, TV("bool", 0, FALSE),   "short", <<>>,  <<1>>,    "",   {"t2"},       FALSE),
   Param(<<"grp_b">>,           TV("str", 0, FALSE),    "short", <<>>,  <<1>>,    "",   {},           FALSE),
-  Param(<<"A">>,               TV("int", 64, TRUE),    "short", <<>>,  <<4>>,    "",   {"t2"},       FALSE),
+  GivenAs(Param(<<"A">>,       TV("int", 64, TRUE),    "short", <<>>,  <<4>>,    "",   {"t2"},       FALSE), "modified", <<2>>),
   Param(<<"Size2", "v">>,      TV("int", 32, FALSE),   "short", <<2>>, <<2, 3>>, "cm", {"t1"},       FALSE) >>
 
 Queries == { <<>>, <<"*">>, <<"grp", "*">>, <<"grp", "b">>, <<"grp", "sub", "*">>, <<"grp", "sub", "d">>,
@@ -336,6 +347,7 @@ Features(p, rel, be, opt, q, ts) ==
   \cup (IF p.ty = "str" /\ \E i \in ElemSet(p) : StrPool[i].blank THEN {"str_blank"} ELSE {})
   \cup (IF p.ty = "str" /\ \E i, j \in ElemSet(p) : StrPool[i].len # StrPool[j].len THEN {"str_unequal_len"} ELSE {})
   \cup (IF OrderSensitive(p) THEN {"order_sensitive"} ELSE {})
+  \cup (IF p.def # "once" THEN {"assigned_later", p.def} ELSE {})
   \cup (IF Dotted(rel) \in opt.define THEN {"define"} ELSE {})
   \cup (IF Dotted(rel) \in opt.const THEN {"const"} ELSE {})
   \cup (IF ~opt.rename THEN {"rename_off"} ELSE {})
@@ -361,9 +373,10 @@ AddTypeParam ==
   /\ Family = "types" /\ stage = "env" /\ env = <<>>
   /\ \E tv \in TypeVariants, shape \in Shapes, start \in 1..16, step \in Steps \cup {1},
         path \in {<<"a">>, <<"grp", "b">>}, form \in {"short", "long"}, unit \in {"", "cm"},
-        tags \in {{}, {"t1"}}, const \in BOOLEAN :
-       /\ TypeParamOK(tv, shape, start, step, path, form, unit, tags, const)
-       /\ env' = <<Param(path, tv, form, shape, Elems(tv, shape, start, step), unit, tags, const)>>
+        tags \in {{}, {"t1"}}, const \in BOOLEAN, mode \in {"once", "modified", "declared"} :
+       /\ TypeParamOK(tv, shape, start, step, path, form, unit, tags, const, mode)
+       /\ env' = <<GivenAs(Param(path, tv, form, shape, Elems(tv, shape, start, step), unit, tags, const), mode,
+                           IF mode = "modified" THEN Elems(tv, shape, start + 1, step) ELSE <<>>)>>
   /\ stage' = "sel" /\ UNCHANGED <<pick, query, tsel, be, opt, calls>>
 
 AddSelParam ==
@@ -459,6 +472,9 @@ LemmaSelection ==        \* selection is a filter: order preserving, sound and c
   /\ (query = <<>> /\ tsel = {}) => Len(SelSeq) = Len(env)
   /\ \A i \in 1..Len(env) : (i \in Selected(env, query, tsel)) => Unselected[i] = ""
   /\ \A i \in 1..Len(env) : \A k \in 1..Len(Expect) : Unselected[i] # "" => Unselected[i] # Expect[k].sym
+LemmaDefinition ==       \* what must be read back does not depend on how the DIP text gave the node its value
+  \A k \in 1..Len(SelSeq) :
+    LET p == env[SelSeq[k]]  rel == RelName(query, p.path) IN Obs(p, rel, be, opt) = Obs(Once(p), rel, be, opt)
 LemmaEnv ==              \* paths of an environment are pairwise different
   \A i, j \in 1..Len(env) : i # j => env[i].path # env[j].path
 \* the type class distinguishes the DIP types as far as the back-end is documented to
@@ -485,7 +501,8 @@ Record ==
     env    |-> [i \in 1..Len(env) |->
                  [path |-> Dotted(env[i].path), kw |-> env[i].kw, ty |-> env[i].ty, shape |-> env[i].shape,
                   elems |-> [k \in 1..Len(env[i].elems) |-> Pool(env[i].ty)[env[i].elems[k]].txt],
-                  unit |-> env[i].unit, tags |-> env[i].tags, const |-> env[i].const]],
+                  unit |-> env[i].unit, tags |-> env[i].tags, const |-> env[i].const, def |-> env[i].def,
+                  init |-> [k \in 1..Len(env[i].init) |-> Pool(env[i].ty)[env[i].init[k]].txt]]],
     query  |-> Dotted(query), tags |-> tsel,
     opt    |-> opt,
     expect |-> Expect,
@@ -569,7 +586,7 @@ ChainEnv == <<
   Param(<<"s">>, TV("str", 0, FALSE),    "short", <<3>>,    <<1, 4, 5>>,    "",   {"t1"}, FALSE),
   Param(<<"c">>, TV("float", 64, FALSE), "short", <<2, 2>>, <<2, 4, 6, 3>>, "cm", {},     FALSE),
   Param(<<"b">>, TV("bool", 0, FALSE),   "short", <<2>>,    <<1, 2>>,       "",   {},     TRUE),
-  Param(<<"d">>, TV("int", 16, TRUE),    "short", <<>>,     <<4>>,          "",   {},     FALSE) >>
+  GivenAs(Param(<<"d">>, TV("int", 16, TRUE), "short", <<>>, <<7>>,         "",   {},     FALSE), "declared", <<>>) >>
 
 StartChain ==
   /\ Family = "chain" /\ stage = "env"
@@ -601,7 +618,7 @@ Spec == Init /\ [][Next]_vars
 Lemmas ==
   /\ (stage = "env" /\ env = <<>>) => PrintT(ToJson([pools |-> [int |-> IntPool, float |-> FloatPool, str |-> StrPool]]))
   /\ stage = "done" =>
-       /\ LemmaEnv /\ LemmaNames /\ LemmaShapes /\ LemmaSelection
+       /\ LemmaEnv /\ LemmaNames /\ LemmaShapes /\ LemmaSelection /\ LemmaDefinition
        /\ PrintT(ToJson(Record))
   /\ (stage = "hist" /\ Len(calls) > 0 /\ calls[Len(calls)].op = "parse") =>
        /\ LemmaEnv /\ LemmaNames /\ LemmaShapes /\ LemmaSelection /\ LemmaHistory
